@@ -316,11 +316,44 @@ func c15RunStack(c *fw.C, caseID string, parts []string) {
 	e := x.e
 	srvKey := c15Key(rng)
 	srv := &p2p.Server{PrivateKey: srvKey, MaxPeers: 50, Name: "c15-node", Protocols: x.pm.SubProtocols, ListenAddr: "127.0.0.1:0", NoDial: true, Discovery: false}
+	// every connection the server builds a transport on is observed: a read the node issues on a peer connection
+	// must carry a deadline (handshake: one total deadline; afterwards: one per frame) — a peer that goes silent can
+	// then hold a connection slot for a bounded time only. Decided on the deadline VALUE at the moment of the call
+	// (zero or not), never on elapsed time.
+	var wmu sync.Mutex
+	var wrapped []*c15DeadlineConn
+	srv.WrapConnsForVerif(func(fd net.Conn) net.Conn {
+		d := &c15DeadlineConn{Conn: fd}
+		wmu.Lock()
+		wrapped = append(wrapped, d)
+		wmu.Unlock()
+		return d
+	})
 	if err := srv.Start(); err != nil {
 		c.Inconclusive("stack: cannot start p2p.Server on loopback: " + err.Error())
 		return
 	}
 	defer srv.Stop()
+	defer func() {
+		wmu.Lock()
+		defer wmu.Unlock()
+		reads, bare, first := 0, 0, ""
+		for _, d := range wrapped {
+			d.mu.Lock()
+			reads += d.reads
+			bare += d.bare
+			if first == "" && d.bare > 0 {
+				first = fmt.Sprintf("read #%d of the connection (after %d bytes received, %d deadline calls)", d.firstBare, d.bytesAtFirstBare, d.setsAtFirstBare)
+			}
+			d.mu.Unlock()
+		}
+		c.Eval(1)
+		c.Count("peer_connections_observed", len(wrapped))
+		c.Count("reads_issued_on_peer_connections", reads)
+		if bare > 0 {
+			c.Violation("peer-connection-read-issued-without-deadline", map[string]interface{}{"class": class, "connections": len(wrapped), "reads": reads, "reads_without_deadline": bare, "first": first})
+		}
+	}()
 	s := &c15Stack{x: x, srv: srv, srvID: discover.PubkeyID(&srvKey.PublicKey), addr: srv.ListenAddr, rng: rng}
 	var st string
 	s.A, st = s.session()
@@ -658,4 +691,50 @@ func c15RunStack(c *fw.C, caseID string, parts []string) {
 		c.Distinct("stack " + class + ": node survived, honest sessions served")
 	}
 	c.Count("stack_attacks", okc)
+}
+
+// c15DeadlineConn records the read deadline in force whenever the node issues a Read on a peer connection.
+type c15DeadlineConn struct {
+	net.Conn
+	mu               sync.Mutex
+	rd               time.Time
+	sets             int
+	reads, bare      int
+	got              int
+	firstBare        int
+	bytesAtFirstBare int
+	setsAtFirstBare  int
+}
+
+func (d *c15DeadlineConn) SetDeadline(t time.Time) error {
+	d.mu.Lock()
+	d.rd = t
+	d.sets++
+	d.mu.Unlock()
+	return d.Conn.SetDeadline(t)
+}
+
+func (d *c15DeadlineConn) SetReadDeadline(t time.Time) error {
+	d.mu.Lock()
+	d.rd = t
+	d.sets++
+	d.mu.Unlock()
+	return d.Conn.SetReadDeadline(t)
+}
+
+func (d *c15DeadlineConn) Read(p []byte) (int, error) {
+	d.mu.Lock()
+	d.reads++
+	if d.rd.IsZero() {
+		d.bare++
+		if d.firstBare == 0 {
+			d.firstBare, d.bytesAtFirstBare, d.setsAtFirstBare = d.reads, d.got, d.sets
+		}
+	}
+	d.mu.Unlock()
+	n, err := d.Conn.Read(p)
+	d.mu.Lock()
+	d.got += n
+	d.mu.Unlock()
+	return n, err
 }
